@@ -1,5 +1,5 @@
 CONSTANTS MaxSub = 3  MaxEv = 2  OrderedPub = TRUE
 SPECIFICATION Spec
-INVARIANTS TypeOK ExactlyOnceInOrder NoLoss NoBlock TreeOK
+INVARIANTS TypeOK ExactlyOnceInOrder NoLoss NoBlock TreeOK PositionalLemma
 PROPERTY EventuallySettled
 CHECK_DEADLOCK TRUE
